@@ -238,6 +238,9 @@ func (o *Obligation) print(asserts []*Term) (full, ground string) {
 // obligations (nil, bounds, division) and many functional ones are decided here.
 func (o *Obligation) prepareA() {
 	base := o.baseAsserts()
+	if os.Getenv("GOVC_DEBUG_OBL") != "" && strings.Contains(o.Name, os.Getenv("GOVC_DEBUG_OBL")) {
+		fmt.Fprintf(os.Stderr, "OBL %s\n guard: %.900s\n goal: %.900s\n", o.Name, o.Guard, o.Goal)
+	}
 	o.ScriptA = smtHeader + Script(withAxioms(groundOnly(instantiateFactsMode(base, 300, 2))), nil, nil)
 }
 
